@@ -284,7 +284,8 @@ func c12Bases(c *sup.Ctx) []refdl.Scenario {
 	auFacts := subsetsOf([]refdl.Atom{atom("p", i1), atom("q", i0), atom("r", i1, i0)})
 	azRules := subsetsOf([]refdl.Rule{rule(atom("q", vx), atom("p", vx)), rule(atom("r", vx, vy), atom("r", vy, vx)), rule(atom("z"), atom("p", vx), atom("q", vx))})
 	auRules := subsetsOf([]refdl.Rule{rule(atom("p", vy), atom("r", vx, vy)), rule(atom("q", vx), atom("p", vx), atom("r", vx, vx))})
-	azChecks := subsetsOf([]refdl.Check{chk(q(atom("q", i0))), chk(q(atom("z")), q(atom("q", i1)))})
+	// the third check joins three atoms: its result must not depend on the order of the facts
+	azChecks := subsetsOf([]refdl.Check{chk(q(atom("q", i0))), chk(q(atom("z")), q(atom("q", i1))), chk(q(atom("p", vx), atom("q", vy), atom("r", vx, vy)))})
 	auChecks := subsetsOf([]refdl.Check{chk(q(atom("p", vx), atom("q", vx))), chk(q(atom("r", vx, vy), atom("p", vy)), q(atom("z")))})
 	blocks := [][]refdl.Block{
 		{},
